@@ -129,13 +129,7 @@ class C15(CheckBase):
         self.ch = ch
         from chameleon.zpt import template as zt
         self.zt = zt
-        if self._alt is None:
-            # a *different* class that happens to have the same __name__
-            # (third-party packages do this: z3c.pt.pagetemplate.PageTemplate)
-            Alt = type("PageTemplate", (zt.PageTemplate,),
-                       {"default_expression": "string",
-                        "__module__": "verif_alt_package.pagetemplate"})
-            self._alt = Alt
+        self._ensure_alt()
         # fixed warm-up run so that lazily filled process-wide caches do
         # not change the number of events of the first counted run
         case = {"wl": "crash", "block": 512, "templates": [
@@ -146,6 +140,15 @@ class C15(CheckBase):
             "plan": {}, "snaps": []}
         self.run(case)
         self.run(case)
+
+    def _ensure_alt(self) -> None:
+        if self._alt is None:
+            # a *different* class that happens to have the same __name__
+            # (third-party packages do this: z3c.pt.pagetemplate.PageTemplate)
+            Alt = type("PageTemplate", (self.zt.PageTemplate,),
+                       {"default_expression": "string",
+                        "__module__": "verif_alt_package.pagetemplate"})
+            self._alt = Alt
 
     def budget(self, tier: str) -> dict:
         b = super().budget(tier)
@@ -202,6 +205,8 @@ class C15(CheckBase):
 
     # -- generation ------------------------------------------------------------
     def gen(self, ch: Choices, tier: str) -> dict:
+        if tier == "thorough" and ch.coin(0.004):
+            return self.gen_realproc(ch)
         wl = ch.weighted([(4, "crash"), (3, "keys"), (3, "writers")], "wl")
         block = ch.pick([0, 0, 64, 512, 512, 1024, 4096], "block")
         case = {"wl": wl, "block": block, "plan": {}, "snaps": []}
@@ -345,6 +350,102 @@ class C15(CheckBase):
                                   for _ in range(ch.choose(3))]
         return case
 
+    def gen_realproc(self, ch: Choices) -> dict:
+        """Validation of the process stub: one writer, one crash, once in
+        the simulation and once with real processes (os._exit)."""
+        body = ch.pick(POOL)
+        spec = {"cls": "PageTemplate", "body": body, "config": {}}
+        if ch.coin(0.3):
+            spec = {"cls": "PageTextTemplate", "config": {},
+                    "body": "Hello ${name}, ${len(items)} items.\n" *
+                    (1 + ch.choose(20))}
+        return {"wl": "realproc",
+                "block": ch.pick([0, 64, 512, 1024, 4096]),
+                "templates": [spec],
+                "phases": [{"procs": [{"name": "A", "ops": [["construct", 0],
+                                                            ["render", 0]]}],
+                            "sched": {"kind": "fifo"}}],
+                "faults": [{"proc": "A", "kind": "crash",
+                            "frac": ch.choose(10_000) / 10_000.0,
+                            "kfrac": ch.choose(10_000) / 10_000.0}],
+                "snap_fracs": [], "plan": {}}
+
+    def run_realproc(self, case: dict) -> dict:
+        import json
+        import shutil
+        import subprocess
+        import sys
+        import tempfile
+        from ..core import VERIF_ROOT
+        from ..fs import SCRATCH_BASE
+        sim_case = dict(case, wl="crash")
+        sim = self.run(sim_case)
+        if sim.get("harness"):
+            return sim
+        plan = sim["summary"]["plan"]
+        sim_obs = sim.get("observer_outcomes", {})
+        root = tempfile.mkdtemp(prefix="verif-%d-rp-" % os.getpid(),
+                                dir=SCRATCH_BASE)
+        violations = list(sim["violations"])
+        detail = {}
+        try:
+            os.makedirs(os.path.join(root, "cache"))
+            os.makedirs(os.path.join(root, "tpl"))
+            env = dict(os.environ, PYTHONHASHSEED="0")
+            arg = {"mode": "writer", "root": root, "plan": plan,
+                   "block": case["block"], "spec": case["templates"][0]}
+            w = subprocess.run([sys.executable, "-m", "sim.c15child",
+                                json.dumps(arg)], cwd=VERIF_ROOT, env=env,
+                               capture_output=True, text=True, timeout=120)
+            crashed_real = w.returncode == 137
+            if w.returncode not in (0, 137):
+                return {"harness": "realproc writer failed: " +
+                        w.stderr[-600:], "violations": [],
+                        "digest": sim["digest"], "events": 0}
+            names_real = sorted(f for f in os.listdir(os.path.join(root, "cache"))
+                                if not f.startswith("__"))
+            o = subprocess.run([sys.executable, "-m", "sim.c15child",
+                                json.dumps({"mode": "observer", "root": root,
+                                            "dir": os.path.join(root, "cache"),
+                                            "spec": case["templates"][0]})],
+                               cwd=VERIF_ROOT, env=env, capture_output=True,
+                               text=True, timeout=120)
+            line = [x for x in o.stdout.splitlines() if x.startswith("CHILD ")]
+            if o.returncode != 0 or not line:
+                return {"harness": "realproc observer failed: " +
+                        o.stderr[-600:], "violations": [],
+                        "digest": sim["digest"], "events": 0}
+            real_out = json.loads(line[0][6:])["outcome"]
+        finally:
+            shutil.rmtree(root, ignore_errors=True)
+        crashed_sim = bool(sim["stats"]["fired"].get("crash"))
+        names_sim = sim.get("crash_listing")
+        ref = sim.get("reference0")
+        detail = {"crashed_real": crashed_real, "crashed_sim": crashed_sim,
+                  "names_real": names_real, "names_sim": names_sim}
+        if real_out[:2] != (ref or real_out)[:2]:
+            violations.append({
+                "kind": "cache-mismatch", "sig": "cache-mismatch:realproc",
+                "detail": f"REAL processes: after the writer was killed at "
+                          f"{plan}, a fresh process got {str(real_out)[:300]}"
+                          f" but without a cache it gets {str(ref)[:300]}"})
+        stub_ok = crashed_real == crashed_sim and (
+            names_sim is None or not crashed_sim or
+            [_HEX32.sub("H", n) for n in names_real] ==
+            [_HEX32.sub("H", n) for n in names_sim])
+        res = dict(sim)
+        res["violations"] = violations
+        res["cover"] = sorted(set(sim.get("cover", [])) | {
+            "realproc-compared", "realproc-agrees" if stub_ok
+            else "realproc-DISAGREES"})
+        res["nontrivial"] = ["realproc:" + short_hash(case)]
+        res["stats"] = dict(sim["stats"], realproc=1,
+                            realproc_agree=int(stub_ok))
+        if not stub_ok:
+            res["harness"] = ("process stub disagrees with real processes: "
+                              + str(detail))
+        return res
+
     def _gen_sched(self, ch: Choices, ntasks: int, est_events: int) -> dict:
         k = ch.choose(10, "schedkind")
         if k == 0:
@@ -358,6 +459,8 @@ class C15(CheckBase):
 
     # -- execution ---------------------------------------------------------------
     def run(self, case: dict) -> dict:
+        if case.get("wl") == "realproc":
+            return self.run_realproc(case)
         self.quiesce()
         log = EventLog()
         self._counts = None
@@ -496,9 +599,14 @@ class C15(CheckBase):
             if snaps_at and world.total_events in snaps_at:
                 take_snapshot("event%d" % world.total_events)
 
+        crash_listing: list = []
+
         def on_crash(proc, label: str) -> None:
             check_entries("at crash " + label)
             take_snapshot("crash:" + label)
+            crash_listing[:] = sorted(
+                f for f in real.listdir(world.path("cache"))
+                if not f.startswith("__"))
 
         world.after_event = after_event
         world.on_crash = on_crash
@@ -670,6 +778,9 @@ class C15(CheckBase):
                 "cover": sorted(cover), "nontrivial": nontrivial,
                 "proc_events": proc_events,
                 "proc_kinds": self._kinds_by_proc(world),
+                "crash_listing": list(crash_listing) or None,
+                "reference0": (refs[0][1] if refs[0][0] == ["ok"]
+                               else refs[0][0]),
                 "summary": {"ops": op_results[:8],
                             "snapshots": [s[0] for s in snapshots],
                             "plan": dict(world.plan)}}
@@ -827,7 +938,10 @@ class C15(CheckBase):
                 "py_compile and the import of a cache module are atomic "
                 "steps (their internal writes use importlib's own "
                 "write-to-temp-then-replace)"],
-            "extra": {"ops_executed": agg["stats"].get("ops", 0),
+            "extra": {"real_process_validations": agg["stats"].get("realproc", 0),
+                      "real_process_validations_agreeing":
+                          agg["stats"].get("realproc_agree", 0),
+                      "ops_executed": agg["stats"].get("ops", 0),
                       "observer_constructions": agg["stats"].get("observers", 0)},
         }
 
